@@ -599,6 +599,9 @@ func (fc *FCtx) evalSlice(e *ast.SliceExpr, st *State) Val {
 func (fc *FCtx) evalCompositeLit(e *ast.CompositeLit, st *State) Val {
 	t := fc.info().TypeOf(e)
 	s := fc.U.SortOf(t)
+	if len(e.Elts) == 0 && (isTime(t) || isBigIntLike(t)) {
+		return fc.zeroVal(t)
+	}
 	switch s.Kind {
 	case KData:
 		tt := t
